@@ -657,3 +657,19 @@ silent("c18-s-trace-record-inline-op", "C18", OP,
        "                op = cls(*args[cls.arity :], **kwargs)\n                trace.setdefault(id(result), (result, op, args[: cls.arity]))",
        "                trace.setdefault(id(result), (result, cls(*args[cls.arity :], **kwargs), args[: cls.arity]))")
 rename("C18", OP, "Op.__call__")
+
+fire("c18-print-op-nondefault-positional", "C18", PROGRAM,
+     "        args = \", \".join(map(str, op.defaults.values()))",
+     "        base = type(op)().defaults\n        args = \", \".join(str(v) for k, v in op.defaults.items() if base[k] != v)", "R18.5", "_print_op")
+silent("c18-s-print-op-nondefault-by-name", "C18", PROGRAM,
+       "        args = \", \".join(map(str, op.defaults.values()))",
+       "        base = type(op)().defaults\n        args = \", \".join(f\"{k}={v}\" for k, v in op.defaults.items() if base[k] != v)")
+silent("c18-s-print-op-comprehension", "C18", PROGRAM,
+       "        args = \", \".join(map(str, op.defaults.values()))", "        args = \", \".join(str(v) for v in op.defaults.values())")
+fire("c18-tracer-constant-guard-other-predicate", "C18", "funsor/ops/tracer.py",
+     "            if not allow_constants and is_variable(result):", "            if not allow_constants and is_numeric_array(result):", "R18.5", "trace_function")
+
+fire("c11-slice-tensor-branch-drops-step", "C11", TERMS,
+     "            data = self.slice.start + self.slice.step * index.data\n            return type(index)(data, index.inputs, self.output.dtype)",
+     "            data = self.slice.start + index.data\n            return type(index)(data, index.inputs, self.output.dtype)", "R11.6", "Slice.eager_subs")
+rename("C11", TERMS, "Slice.eager_subs")
